@@ -280,7 +280,8 @@ instance (q : Char) (pre : Text) : Decidable (InAttr q pre) :=
 
 /-! ## nesting (a function of the structure only) -/
 
-/-- start / end tags balance with matching names and there is exactly one root element -/
+/-- start / end tags balance with matching names, there is exactly one root element and no
+character data other than white space outside it -/
 def wellNested (toks : List Tok) : Bool :=
   let rec go : List Tok → List Text → Nat → Option Nat
     | [], [], roots => some roots
@@ -290,6 +291,7 @@ def wellNested (toks : List Tok) : Bool :=
     | .close n :: r, top :: stack, roots => if n = top then go r stack roots else none
     | .close _ :: _, [], _ => none
     | .cdata _ :: r, stack, roots => if stack.isEmpty then none else go r stack roots
+    | .text s :: r, stack, roots => if stack.isEmpty && !s.all isWs then none else go r stack roots
     | _ :: r, stack, roots => go r stack roots
   go toks [] 0 = some 1
 
